@@ -82,8 +82,15 @@ func (o *operations) Done() {
 	enqueued := o.tryEnqueue(func() {
 		wg.Done()
 	})
+	busyCh := o.busyCh
 	o.mu.Unlock()
 	if !enqueued {
+		// the queue is closed: operations accepted before the
+		// close are still drained, wait for them to finish.
+		if busyCh != nil {
+			<-busyCh
+		}
+
 		return
 	}
 	wg.Wait()
@@ -131,18 +138,18 @@ func (o *operations) start() {
 	defer func() {
 		o.mu.Lock()
 		defer o.mu.Unlock()
-		// this wil lbe the most recent busy chan
-		close(o.busyCh)
-
-		if o.ops.Len() == 0 || o.isClosed {
+		if o.ops.Len() == 0 {
+			// the queue is drained, wake up everyone waiting for it.
+			close(o.busyCh)
 			o.busyCh = nil
 
 			return
 		}
 
 		// either a new operation was enqueued while we
-		// were busy, or an operation panicked
-		o.busyCh = make(chan struct{})
+		// were busy, or an operation panicked. Operations
+		// accepted before a close still run, so busyCh stays
+		// open until the queue is drained.
 		go o.start()
 	}()
 
